@@ -1,0 +1,73 @@
+//go:build !verif
+
+package pipeline
+
+// Verification hooks of the two event pools (see verif_pool_on.go, build tag "verif"): without
+// the tag every function is empty and inlined away; the constants only name the call sites.
+
+// Trace label kinds (low-memory pool).
+const (
+	vpLmInc       = 40
+	vpLmAdmit     = 41
+	vpLmDec       = 42
+	vpLmWInc      = 43
+	vpLmLock      = 44
+	vpLmCheck     = 45
+	vpLmRegister  = 46
+	vpLmWake      = 47
+	vpLmUnlock    = 48
+	vpLmWDec      = 49
+	vpLmBackDec   = 50
+	vpLmBackBcast = 51
+	vpLmTickW     = 52
+	vpLmTickA     = 53
+	vpLmTickFire  = 54
+	vpLmTickEnd   = 55
+)
+
+// Trace label kinds (standard pool).
+const (
+	vpStdClaim     = 60
+	vpStdCas       = 61
+	vpStdWInc      = 62
+	vpStdLock      = 63
+	vpStdRegister  = 64
+	vpStdWake      = 65
+	vpStdUnlock    = 66
+	vpStdWDec      = 67
+	vpStdTake      = 68
+	vpStdFree2     = 69
+	vpStdInUseInc  = 70
+	vpStdBackClaim = 71
+	vpStdBackCas   = 72
+	vpStdBackPut   = 73
+	vpStdBackFree1 = 74
+	vpStdBackDec   = 75
+	vpStdBackBcast = 76
+	vpStdTickW     = 77
+	vpStdTickA     = 78
+	vpStdTickFire  = 79
+	vpStdTickEnd   = 80
+)
+
+// Gate points.
+const (
+	vgLmBeforeWait  = 20
+	vgStdBeforeWait = 21
+	vgLmAfterInc    = 22
+	vgStdAfterCas   = 23
+)
+
+func verifPoolAtom() {}
+
+func verifPoolAtomTrace(kind int, obj any, a, b, c int64) {}
+
+func verifPoolAtomTraceIf(cond bool, kind int, obj any, a, b, c int64) {}
+
+func verifPoolTrace(kind int, obj any, a, b, c int64) {}
+
+func verifPoolGate(point int, obj any, a int64) {}
+
+func verifEventID(e *Event) int64 { return 0 }
+
+func verifEventSize(e *Event) int64 { return 0 }
